@@ -126,6 +126,10 @@ theorem relSome_call (st : State) (pc : Pc) (a : Nat) (hd : a ∈ st.dead) (h : 
     · exact Or.inl (relSome_removeEmptyRel h)
   | demonitor g b => exact Or.inl (relSome_alter_map h)
   | demonitorScope s b => exact Or.inl (relSome_alter_map h)
+  | demonitorCall g b => exact Or.inl h
+  | demonitorScopeCall s b => exact Or.inl h
+  | demonitorFwd g b => exact Or.inl h
+  | demonitorScopeFwd s b => exact Or.inl h
   | done => exact Or.inl h
 
 /-- no region of any exit creates a reverse-index entry -/
@@ -192,8 +196,7 @@ theorem sets_empty {g : G} {a : Nat} {ph : Phase} (h : VInv a (gView g) ph)
   rcases hp with hp | ⟨hp, hd⟩
   · have hg : drainedG ph := by cases ph <;> first | trivial | exact hp
     exact ⟨h.drM hp, (h.drG hg).1, (h.drG hg).2⟩
-  · obtain ⟨c1, c2, c3⟩ := h.old hp hd
-    exact ⟨fun k hk => c1 k (h.rM k hk), fun k hk => c2 k (h.rL k hk), fun s hs => c3 s (h.rW s hs)⟩
+  · exact (h.old hp hd).2
 
 theorem holder_set {thr : List Pc} {a : Nat} {i : Nat} {pc pc' : Pc} (hp : thr[i]? = some pc)
     (hkeep : holdsRel a pc → holdsRel a pc')
